@@ -40,9 +40,11 @@ __all__ = [
 logger = logging.getLogger(__name__)
 
 
-def _redshift_histogram(patch: Patch, binning: Binning) -> NDArray:
+def _redshift_histogram(
+    patch_id: int, patch: Patch, binning: Binning
+) -> tuple[int, NDArray]:
     """Worker function that computes a redshift histgram from a given patch and
-    binning."""
+    binning. Returns the patch ID along with the counts."""
     redshifts = patch.redshifts
     weights = patch.weights if patch.has_weights else None
 
@@ -50,7 +52,7 @@ def _redshift_histogram(patch: Patch, binning: Binning) -> NDArray:
     # binning rule as when building trees for the correlation measurements
     bin_idx = np.digitize(redshifts, binning.edges, right=(binning.closed == "right"))
     counts = np.bincount(bin_idx, weights=weights, minlength=len(binning) + 2)
-    return counts[1:-1].astype(np.float64)  # remove objects outside of binning
+    return patch_id, counts[1:-1].astype(np.float64)  # w/o objects outside binning
 
 
 def resample_jackknife(observations: NDArray, patch_rows: bool = True) -> NDArray:
@@ -128,16 +130,19 @@ class HistData(CorrData):
 
         patch_count_iter = parallel.iter_unordered(
             _redshift_histogram,
-            catalog.values(),
+            catalog.items(),
             func_kwargs=dict(binning=config.binning),
+            unpack=True,
             max_workers=max_workers,
         )
         if progress:
             patch_count_iter = Indicator(patch_count_iter, len(catalog))
 
+        # results arrive in arbitrary order, store them in order of patch IDs
+        row_index = {patch_id: i for i, patch_id in enumerate(catalog.keys())}
         counts = np.empty((len(catalog), config.num_bins))
-        for i, patch_count in enumerate(patch_count_iter):
-            counts[i] = patch_count
+        for patch_id, patch_count in patch_count_iter:
+            counts[row_index[patch_id]] = patch_count
         parallel.COMM.Bcast(counts, root=0)
 
         return cls(
